@@ -7,7 +7,7 @@ from harness import common, imggen, imgio
 PALS = "{" + ", ".join(str(i) for i in range(64)) + "}"
 EXTREME_VALS = "{0, 15, 240, 255, 17, 136, 8, 128, 119, 18, 33, 254, 1, 85, 170, 204}"   # every nibble value in both positions, bit pairs
 LOWNIB_VALS = "{0, 7, 112, 119, 17, 18, 33, 69, 86, 103, 36, 1, 80}"                     # low nibble < 8 (RAT, see known finding)
-LENS = "{1, 2, 3, 79, 80, 81, 127, 128, 129, 159, 160, 161, 254, 255, 256, 700}"
+LENS = "{1, 2, 3, 79, 80, 81, 112, 127, 128, 129, 140, 159, 160, 161, 254, 255, 256, 700}"       # incl. the two escape byte values used below (a run as long as the escape byte)
 MAXMODES = ["bw", "br", "rb", "br2", "rb2", "br3", "rb3", "s10", "s11"]
 
 
@@ -21,7 +21,11 @@ def variants_uncompressed():
     v = []
     v.append(("hrs", base("RAW", "HRS", 160 * 192, 160), "hrstoppm", [], {"fmt": "HRS", "w": 320, "h": 192}))
     v.append(("hrs-w64", base("RAW", "HRS", 32 * 20, 32, skip=7), "hrstoppm", ["-w", "64", "-r", "20", "-s", "7"], {"fmt": "HRS", "w": 64, "h": 20}))
+    v.append(("hrs-w7", base("RAW", "HRS", 4 * 6, 4), "hrstoppm", ["-w", "7", "-r", "6"], {"fmt": "HRS", "w": 7, "h": 6}))
+    v.append(("hrs-w1", base("RAW", "HRS", 1 * 5, 1), "hrstoppm", ["-w", "1", "-r", "5"], {"fmt": "HRS", "w": 1, "h": 5}))
     v.append(("mge-raw", base("RAW", "MGE-RAW", 32000, 160), "mgetoppm", [], {"fmt": "MGE", "w": 320, "h": 200}))
+    for flag in (1, 127, 128):
+        v.append(("mge-raw-flag%d" % flag, base("RAW", "MGE-RAW", 32000, 160, skip=flag), "mgetoppm", [], {"fmt": "MGE", "w": 320, "h": 200}))
     for t, total, ll in ((0, 32000, 160), (1, 32000, 160), (3, 16000, 80)):
         v.append(("vef-raw-%d" % t, base("RAW", "VEF", total, ll, veftype=t), "veftopng", [], {"fmt": "VEF", "veftype": t, "w": 640 if t == 1 else 320, "h": 200}))
     for m in MAXMODES:
